@@ -57,17 +57,15 @@ def arith_spec(g, uid, t0, horizon, opts=None):
         freq, unit = 'SECONDLY', 1
         interval = max(1, int(horizon / want))
     if g.chance(0.2):
-        interval = g.pick([1, 2, 3, 5, 7, 10, 30, 60, 90])
-    # FREQ=DAILY;INTERVAL>=32 (and HOURLY intervals of a month and more) are
-    # expanded wrongly by the RRULE engine (observed; C01 territory, not
-    # claimed): keep the independently computed expectation valid by
-    # keeping every period below 27 days
-    while unit * interval > 27 * 86400:
+        interval = g.pick([1, 2, 3, 5, 7, 10, 30, 45, 60, 90, 366])
+    # (periods of more than a month were expanded wrongly by the RRULE engine
+    # until fix 6500598; they are generated since)
+    while unit * interval > 400 * 86400:
         interval = max(1, interval // 2)
     # bounded runs: no more than a few hundred occurrences in the horizon
     while horizon / (unit * interval) > opts.get('max_spawns', 300):
         interval *= 2
-    while unit * interval > 27 * 86400:
+    while unit * interval > 400 * 86400:
         interval = max(1, interval // 2)
     step = unit * interval
     # where does it start relative to load time
